@@ -791,8 +791,134 @@ class _Sentinel:
         return f"<{self.tag}>"
 
 
+def hole_roles(ctx, fi: FuncInfo, e: ast.expr, depth=0, seen=None) -> set:
+    """what a formatted expression of a line template stands for, followed through the local definitions of the names in
+    it: 'attr:<key>' (an attribute of the atom / bond read with a constant key), 'label+k' (a node label plus k),
+    'count:nodes' / 'count:edges', 'pos+k' (a running number of the loop), 'const'"""
+    seen = seen if seen is not None else set()
+    out = set()
+    if depth > 6:
+        return out
+    fn = fi.node
+    # offsets
+    if isinstance(e, ast.BinOp) and isinstance(e.op, (ast.Add, ast.Sub)) and isinstance(e.right, ast.Constant) and isinstance(e.right.value, int):
+        k = e.right.value if isinstance(e.op, ast.Add) else -e.right.value
+        for r in hole_roles(ctx, fi, e.left, depth + 1, seen):
+            if r.startswith(("label", "pos")):
+                base, _, k0 = r.partition("+")
+                out.add(f"{base}+{int(k0 or 0) + k}")
+            else:
+                out.add(r)
+        return out
+    if isinstance(e, ast.Constant):
+        return {"const"}
+    if isinstance(e, ast.IfExp):
+        return hole_roles(ctx, fi, e.body, depth + 1, seen) | hole_roles(ctx, fi, e.orelse, depth + 1, seen)
+    if isinstance(e, ast.NamedExpr):
+        return hole_roles(ctx, fi, e.value, depth + 1, seen)
+    if isinstance(e, ast.Subscript) and not isinstance(e.slice, ast.Slice):
+        k = try_const(ctx, fi, e.slice)
+        if isinstance(k, str):
+            return {f"attr:{k}"}
+        if isinstance(k, int) and isinstance(e.value, ast.Name):
+            # element k of a tuple bound by the loop:  edge[0]
+            return {f"label+0"} if "edge" in hole_sources(ctx, fi, e.value.id) else hole_roles(ctx, fi, e.value, depth + 1, seen)
+        return hole_roles(ctx, fi, e.value, depth + 1, seen)
+    if isinstance(e, ast.Call):
+        if isinstance(e.func, ast.Attribute) and e.func.attr == "get" and e.args:
+            k = try_const(ctx, fi, e.args[0])
+            if isinstance(k, str):
+                return {f"attr:{k}"}
+        if isinstance(e.func, ast.Attribute) and e.func.attr == "number_of_nodes":
+            return {"count:nodes"}
+        if isinstance(e.func, ast.Attribute) and e.func.attr == "number_of_edges":
+            return {"count:edges"}
+        if isinstance(e.func, ast.Name) and e.func.id == "len" and e.args:
+            t = norm(e.args[0])
+            return {"count:edges"} if "edges" in t else {"count:nodes"}
+        r = set()
+        for a in e.args:
+            r |= hole_roles(ctx, fi, a, depth + 1, seen)
+        return r
+    if isinstance(e, ast.Name):
+        if e.id in seen:
+            return out
+        seen = seen | {e.id}
+        src = hole_sources(ctx, fi, e.id)
+        if "node" in src:
+            out.add("label+0")
+        if "endpoint" in src:
+            out.add("label+0")
+        if "pos1" in src:
+            out.add("pos+1")
+        if "pos0" in src:
+            out.add("pos+0")
+        for d in assigned_names(fn).get(e.id, []):
+            v = getattr(d, "value", None)
+            if v is not None and isinstance(d, (ast.Assign, ast.AnnAssign, ast.NamedExpr)):
+                tg = d.targets[0] if isinstance(d, ast.Assign) else d.target
+                if isinstance(tg, ast.Name):
+                    out |= hole_roles(ctx, fi, v, depth + 1, seen)
+                elif isinstance(tg, (ast.Tuple, ast.List)) and isinstance(v, ast.Name):
+                    # a, b, attrs = edge
+                    idx = [i for i, x in enumerate(tg.elts) if isinstance(x, ast.Name) and x.id == e.id]
+                    if idx and "edge" in hole_sources(ctx, fi, v.id) and idx[0] < 2:
+                        out.add("label+0")
+        return out
+    for c in ast.iter_child_nodes(e):
+        if isinstance(c, ast.expr):
+            out |= hole_roles(ctx, fi, c, depth + 1, seen)
+    return out
+
+
+def hole_sources(ctx, fi: FuncInfo, name: str) -> set:
+    """how a name is bound by the loops of fi: 'node' (node of G.nodes / G), 'edge' (a whole edge tuple), 'endpoint' (one end
+    of an edge), 'pos0' / 'pos1' (enumerate counter starting at 0 / 1)"""
+    out = set()
+    for lp in own_walk(fi.node):
+        gens = []
+        if isinstance(lp, ast.For):
+            gens = [(lp.target, lp.iter)]
+        elif isinstance(lp, (ast.ListComp, ast.GeneratorExp, ast.SetComp, ast.DictComp)):
+            gens = [(g.target, g.iter) for g in lp.generators]
+        for tg, it in gens:
+            start = 0
+            inner_tg, inner_it = tg, it
+            if isinstance(it, ast.Call) and isinstance(it.func, ast.Name) and it.func.id == "enumerate" and it.args and isinstance(tg, ast.Tuple) and len(tg.elts) == 2:
+                st_ = next((k.value for k in it.keywords if k.arg == "start"), it.args[1] if len(it.args) > 1 else None)
+                start = try_const(ctx, fi, st_) if st_ is not None else 0
+                if isinstance(tg.elts[0], ast.Name) and tg.elts[0].id == name:
+                    out.add("pos1" if start == 1 else "pos0")
+                inner_tg, inner_it = tg.elts[1], it.args[0]
+            base = inner_it
+            while isinstance(base, ast.Call) and isinstance(base.func, ast.Name) and base.func.id in ("sorted", "list", "tuple", "reversed") and base.args:
+                base = base.args[0]
+            t = norm(base)
+            is_edges = ".edges" in t
+            is_nodes = ".nodes" in t or (isinstance(base, ast.Name) and "graph" in hole_param_kinds(fi).get(base.id, ""))
+            if isinstance(inner_tg, ast.Name) and inner_tg.id == name:
+                if is_edges:
+                    out.add("edge")
+                elif is_nodes:
+                    out.add("node")
+            elif isinstance(inner_tg, ast.Tuple):
+                for i, x in enumerate(inner_tg.elts):
+                    if isinstance(x, ast.Name) and x.id == name:
+                        if is_edges and i < 2:
+                            out.add("endpoint")
+                        elif is_nodes and i == 0:
+                            out.add("node")
+    return out
+
+
+def hole_param_kinds(fi: FuncInfo) -> dict:
+    from ..model import annotation_name
+    return {a.arg: ("graph" if "Graph" in (annotation_name(a.annotation) or "") else "") for a in fi.node.args.args}
+
+
 def _instantiate(ctx, fi: FuncInfo, tmpl: ast.expr) -> Optional[list[str]]:
-    """tokens of a template line with every formatted expression replaced by a sentinel naming it"""
+    """tokens of a template line with every formatted expression replaced by a sentinel `<roles|spec>` saying what it stands
+    for (see hole_roles), followed by its source text for the reports"""
     if isinstance(tmpl, ast.Constant) and isinstance(tmpl.value, str):
         return tmpl.value.split()
     if not isinstance(tmpl, ast.JoinedStr):
@@ -803,7 +929,8 @@ def _instantiate(ctx, fi: FuncInfo, tmpl: ast.expr) -> Optional[list[str]]:
             s += p.value
         else:
             spec = try_const(ctx, fi, p.format_spec) if p.format_spec is not None else ""
-            s += f"<{norm(p.value)}{'|' + spec if spec else ''}>".replace(" ", "")
+            roles = ",".join(sorted(hole_roles(ctx, fi, p.value))) or "?"
+            s += f"<{roles}|{spec}>".replace(" ", "")
     return s.split()
 
 
@@ -835,9 +962,9 @@ def r_fields(ctx) -> RuleResult:
         txt = " ".join(toks)
         if "COUNTS" in txt:
             counts_t = (fi, t, toks)
-        elif "ELEMENT_SYMBOL" in txt or "element_symbol" in txt.lower():
+        elif "attr:element_symbol" in txt:
             atom_t = (fi, t, toks)
-        elif "bond_type" in txt.lower() or "BOND_TYPE" in txt:
+        elif "attr:bond_type" in txt:
             bond_t = (fi, t, toks)
     if atom_t is None or bond_t is None or counts_t is None:
         raise AnalysisError("R-FIELDS: atom / bond / counts line templates not found in the writer")
@@ -847,15 +974,15 @@ def r_fields(ctx) -> RuleResult:
     for i, tok in enumerate(toks):
         p = i + prefix_tokens
         low = tok.lower()
-        if "element_symbol" in low:
+        if "attr:element_symbol" in low:
             pos["symbol"] = p
-        elif low.startswith("<x|") or low.startswith("<x>"):
+        elif "attr:x_coord" in low:
             pos["x"] = p
-        elif low.startswith("<y|") or low.startswith("<y>"):
+        elif "attr:y_coord" in low:
             pos["y"] = p
-        elif low.startswith("<z|") or low.startswith("<z>"):
+        elif "attr:z_coord" in low or (low.startswith("<const") and pos["x"] is not None and pos["y"] is not None and pos["z"] is None):
             pos["z"] = p
-        elif "index" in low and pos["index"] is None:
+        elif "label+" in low and pos["index"] is None:
             pos["index"] = p
     checks = [("symbol", reader_pos["element_symbol"]), ("x", reader_pos["x"]), ("y", reader_pos["y"]), ("z", reader_pos["z"])]
     for name, want in checks:
@@ -864,13 +991,13 @@ def r_fields(ctx) -> RuleResult:
         if not ok:
             res.fail(Finding("R-FIELDS", fi.module.rel, fi.qualname, norm(t), f"atom line: the writer puts {name} at token {pos[name]}, the reader reads it from token {sorted(want)}", line=t.lineno))
     # atom index: reader `int(line[2]) - 1`
-    ok = pos["index"] == 2 and "+1" in toks[0]
+    ok = pos["index"] == 2 and "label+1" in toks[0] and "label+0" not in toks[0] and "label+2" not in toks[0]
     res.inst(fi.fq, f"atom line: 1-based index is token {pos['index']}", "ok" if ok else "fail")
     if not ok:
         res.fail(Finding("R-FIELDS", fi.module.rel, fi.qualname, norm(t), "atom line: the atom number is not the first field after the prefix, written as label + 1", line=t.lineno))
     # coordinates .6f
     for i, tok in enumerate(toks):
-        if tok.lower().startswith(("<x", "<y", "<z")):
+        if i + prefix_tokens in (pos["x"], pos["y"], pos["z"]):
             ok = tok.endswith("|.6f>")
             res.inst(fi.fq, f"coordinate token {tok}", "ok" if ok else "fail")
             if not ok:
@@ -879,8 +1006,8 @@ def r_fields(ctx) -> RuleResult:
     _check_optional_tokens(ctx, fi, res)
     # ---- bond line
     fi, t, toks = bond_t
-    bt = next((i + prefix_tokens for i, tok in enumerate(toks) if "bond_type" in tok.lower()), None)
-    ends = [i + prefix_tokens for i, tok in enumerate(toks) if "+1" in tok]
+    bt = next((i + prefix_tokens for i, tok in enumerate(toks) if "attr:bond_type" in tok.lower()), None)
+    ends = [i + prefix_tokens for i, tok in enumerate(toks) if "label+1" in tok and "label+0" not in tok]
     ok = bt is not None and {str(bt)} == bond_type_pos
     res.inst(fi.fq, f"bond line: type is token {bt}; reader reads {sorted(bond_type_pos)}", "ok" if ok else "fail")
     if not ok:
@@ -891,7 +1018,7 @@ def r_fields(ctx) -> RuleResult:
         res.fail(Finding("R-FIELDS", fi.module.rel, fi.qualname, norm(t), f"bond line: endpoints at tokens {ends} (as label + 1), reader reads tokens {sorted(bond_end_pos)} and subtracts 1", line=t.lineno))
     # ---- counts line and line sequence
     fi, t, toks = counts_t
-    ok = toks[0] == "COUNTS" and len(toks) + prefix_tokens >= 5 and "number_of_nodes" in toks[1] and "number_of_edges" in toks[2]
+    ok = toks[0] == "COUNTS" and len(toks) + prefix_tokens >= 5 and "count:nodes" in toks[1] and "count:edges" in toks[2]
     res.inst(fi.fq, f"counts line tokens {toks}", "ok" if ok else "fail")
     if not ok:
         res.fail(Finding("R-FIELDS", fi.module.rel, fi.qualname, norm(t), "counts line is not `COUNTS <atoms> <bonds> …` with at least five tokens", line=t.lineno))
